@@ -57,9 +57,12 @@ func Register(name string, d driver.Driver) { stdsql.Register(name, d) }
 func OpenDB(c driver.Connector) *DB         { return stdsql.OpenDB(c) }
 
 // Plan of one execution.
+// OnCancel is called when a fault of kind "cancel" fires (set by the harness for one execution).
+var OnCancel func()
+
 type Plan struct {
 	FailCall int    // 1-based number of the driver call that fails (0 = none)
-	Kind     string // error | busy | full | commit-open
+	Kind     string // error | busy | full | commit-open | cancel
 }
 
 var (
@@ -98,6 +101,14 @@ func point(kind string) error {
 			k = "busy"
 		}
 		fired = k + "@" + kind
+		if k == "cancel" {
+			// not a driver error: the CLIENT goes away at this moment (the request's context is cancelled by
+			// the harness's hook); the call itself succeeds
+			if OnCancel != nil {
+				OnCancel()
+			}
+			return nil
+		}
 		switch k {
 		case "busy":
 			return errors.New("database is locked (5) (SQLITE_BUSY)")
